@@ -155,6 +155,8 @@ def check_proofs(prop: str, prop_files: list[str], targets: list[str],
     `#print axioms` of every theorem of the property files."""
     problems: list[str] = []
     checker_cmd = "cd lean && lake build " + " ".join(targets + ["driver"])
+    import gen_main
+    gen_main.main()
     ok, out = lake_build(targets + ["driver"])
     thms: list[str] = []
     for f in prop_files:
